@@ -488,13 +488,14 @@ class Table(JupyterMixin):
                 for width, column in zip(widths, columns)
             ]
             widths = [_range.maximum or 1 for _range in width_ranges]
+            table_width = sum(widths)
 
         if (table_width < max_width and self.expand) or (
             self.min_width is not None and table_width < (self.min_width - extra_width)
         ):
             _max_width = (
                 max_width
-                if self.min_width is None
+                if (self.expand or self.min_width is None)
                 else min(self.min_width - extra_width, max_width)
             )
             pad_widths = ratio_distribute(_max_width - table_width, widths)
